@@ -123,7 +123,7 @@ def mkvariants(rnd, n, small, complen=0, plainlen=0):
 def run(ctx):
     ctx.rule = ('each valid or invalid input is decompressed once as reference (1 worker, defaults) and under N variants over workers 1-16, '
                 'schedule perturbation (H1), input granule 4 B..1 MiB and output granule 1 B..900000 (H2: suspends the bit-stream '
-                'decoder and the run-length emitter everywhere), stdin fragmentation, throttled stdout, and output modes stdout / -c FILE '
+                'decoder and the run-length emitter everywhere), stdin fragmentation, throttled stdout, inputs with spurious header patterns inside coded data, and output modes stdout / -c FILE '
                 '/ FILE->file / -t; exit status compared on every run, bytes among exit-0 runs; in-process: retrieve() resumed at every '
                 '32-bit word and emit() with 1-7 byte buffers vs one-shot; non-trivial = distinct (input, configuration) pairs that ran')
     q = ctx.quick()
@@ -157,6 +157,16 @@ def run(ctx):
             if 'straggler' in v['env'].get('LBZIP2_VERIF_SCHED', ''):
                 v['env'].pop('LBZIP2_VERIF_SCHED')
         cs.append(dict(name='synth:maxlen-groups', data=data, variants=vs))
+    # valid streams whose coded data contains spurious block-header patterns (candidates the scanner reports and the parser
+    # later passes over): the result must not depend on when the speculative work on them runs
+    from . import c10
+    for i in range(8 if q else 100):
+        kind = rnd.choice(['pattern-alone', 'pattern+crc+garbage', 'inner-block', 'adjacent', 'pattern+crc+garbage'])
+        data = c10.make_case(rnd, kind)
+        vs = mkvariants(rnd, nvar // 2, True, len(data), plen(data))
+        for v in vs:
+            v['w'] = max(2, v['w'])
+        cs.append(dict(name='synth:spurious-header-' + kind, data=data, variants=vs))
     for i in range(3 if q else 40):
         name, data, plain = dcorpus.concat_levels(rnd, lb)
         cs.append(dict(name=name, data=data, variants=mkvariants(rnd, nvar // 2, False, len(data), len(plain))))
